@@ -80,6 +80,9 @@ func projFn(f core_domain.CodeFunction) FnObs {
 
 func projDs(d core_domain.CodeDataStruct) TypeObs {
 	t := TypeObs{Name: d.NodeName, Pkg: d.Package, Props: projProps(d.InOutProperties), Decos: []string{}, Methods: []FnObs{}}
+	for _, f := range d.Fields { // the model's other slot for members of a type (CodeField: TypeValue = name, TypeType = type)
+		t.Props = append(t.Props, NT{Name: f.TypeValue, Type: f.TypeType})
+	}
 	for _, a := range d.Annotations {
 		t.Decos = append(t.Decos, a.Name)
 	}
